@@ -42,7 +42,7 @@ func (l *Link) Validate() error {
 // LinkByKey finds the link with the given key from the provided list.
 func LinkByKey(list []*Link, k cbc.Key) *Link {
 	for _, l := range list {
-		if l.Key == k {
+		if l != nil && l.Key == k {
 			return l
 		}
 	}
@@ -56,7 +56,7 @@ func AppendLink(list []*Link, l *Link) []*Link {
 		return list
 	}
 	for _, v := range list {
-		if v.Key == l.Key {
+		if v != nil && v.Key == l.Key {
 			*v = *l // copy in place
 			return list
 		}
@@ -76,6 +76,9 @@ func detectDuplicateLinks(list any) error {
 	set := []*Link{}
 	// loop through and check order of Since value
 	for _, v := range values {
+		if v == nil {
+			continue
+		}
 		if l := LinkByKey(set, v.Key); l != nil {
 			return fmt.Errorf("duplicate key '%v'", v.Key)
 		}
